@@ -27,7 +27,7 @@ WATCHDOG = {"quick": 240.0, "thorough": 900.0}
 
 
 def gen_cases(tier, seed):
-    n = 96 if tier == "quick" else 1500
+    n = 96 if tier == "quick" else 1200
     out = []
     for i in range(n):
         s = env.seed_for(seed, ID, tier, i)
